@@ -289,7 +289,7 @@ def _structural_bytes_op(op, a, b, st):
   return None
 
 
-def _structural_bits_op(op, a, b, st):
+def _structural_bits_op(op, a, b, st, demand=False):
   """& | ^ << >> on operands with a registered bit decomposition (flag words): computed bit by bit"""
   if not isinstance(op, (ast.BitAnd, ast.BitOr, ast.BitXor, ast.LShift, ast.RShift)):
     return None
@@ -297,6 +297,9 @@ def _structural_bits_op(op, a, b, st):
     if not isinstance(b, int) or isinstance(b, bool) or b < 0 or not is_symint(a):
       return None
     ba = st.bits_of(a)
+    if ba is None and b % 8 != 0 and isinstance(op, ast.RShift) and a.get_id() in st.decomp \
+       and len(st.decomp[a.get_id()][1]) <= 2:
+      ba = st.demand_bits(a)       # a shift inside a 16-bit field: split its bytes into bits once
     if ba is None:
       return None
     if isinstance(op, ast.LShift):
@@ -304,6 +307,15 @@ def _structural_bits_op(op, a, b, st):
     return st.compose_bits(list(ba[b:]))
   sa = is_symint(a) and st.bits_of(a) is not None
   sb_ = is_symint(b) and st.bits_of(b) is not None
+  if demand and not (sa and sb_):
+    # two symbolic operands, at least one without known bits: bits on demand from the known bytes
+    for x_, other in ((a, b), (b, a)):
+      if is_symint(x_) and st.bits_of(x_) is None and is_symint(other):
+        st.demand_bits(x_)
+    sa = is_symint(a) and st.bits_of(a) is not None
+    sb_ = is_symint(b) and st.bits_of(b) is not None
+    if not (sa and sb_):
+      return None
   if not (sa or sb_):
     return None
   x, y = (a, b) if sa else (b, a)
@@ -372,6 +384,10 @@ def num_binop(I_, op, a, b, st, ctx, k, node):
     r_ = _structural_bytes_op(op, a, b, st)
     if r_ is not None:
       return k(st, r_)
+    if is_symint(a) and is_symint(b) and isinstance(op, (ast.BitAnd, ast.BitOr, ast.BitXor)):
+      r_ = _structural_bits_op(op, a, b, st, demand=True)
+      if r_ is not None:
+        return k(st, r_)
   real = is_symreal(a) or is_symreal(b) or isinstance(a, float) or isinstance(b, float)
   if real:
     x, y = zreal(a), zreal(b)
@@ -998,7 +1014,8 @@ def identity(I_, a, b, st):
       v = slist_attr(st, e.ref, "is_none", e.idx)
       if v is not None:
         return v
-    raise Unsupported("identity test on an abstract list element (only `is None` with a tracked is_none)")
+      return False       # elements of a list of objects are objects
+    raise Unsupported("identity test on an abstract list element (only `is None`)")
   if isinstance(a, Union) or isinstance(b, Union):
     u, o = (a, b) if isinstance(a, Union) else (b, a)
     parts = []
@@ -1245,6 +1262,8 @@ def getattr_value(I_, obj, name, st, ctx, k, node=None):
     cls = type(obj)
     return real_instance_getattr(I_, obj, cls, name, st, ctx, k, node)
   if isinstance(obj, (str, bytes, int, float, list, dict, set, frozenset, bool, range)) or obj is None:
+    if name == "__class__":
+      return k(st, type(obj))
     if not hasattr(obj, name):
       return I_.raise_exc(st, ctx, AttributeError, "'%s' object has no attribute '%s'"
                           % (type(obj).__name__, name), node)
@@ -1774,6 +1793,8 @@ def iter_values(I_, v, st, ctx, k, node=None, live_ok=False):
       return I_.raise_exc(st, ctx, TypeError, "object is not iterable", node)
   if isinstance(v, IterVal):
     return k(st, list(v.items))
+  if isinstance(v, SymRange):
+    raise Unsupported("loop over range() with a symbolic bound needs a loop invariant at %s" % I_.where(ctx, node))
   if isinstance(v, SElem) and not v.path:
     attrs = st.obj(v.ref).data["attrs"]
     comps = sorted([a for a in attrs if a.isdigit()], key=int)
